@@ -522,7 +522,7 @@ class JUnitReporter(Reporter):
             if scenario.exception:
                 failure_type = scenario.exception.__class__.__name__
             xml_element.set(u'type', failure_type)
-            xml_element.set(u'message', scenario.error_message.strip() or "")
+            xml_element.set(u'message', (scenario.error_message or u"").strip())
             traceback_lines = traceback.format_tb(scenario.exc_traceback)
             traceback_lines.insert(0, u"Traceback:\n")
             text = _text(u"".join(traceback_lines))
